@@ -97,7 +97,7 @@ fn safe_step(m: &mut dyn Machine, op: OpId) -> Step {
     }
 }
 
-fn fp_hash(s: &str) -> u128 {
+pub fn fp_hash(s: &str) -> u128 {
     let mut h1 = std::collections::hash_map::DefaultHasher::new();
     0u8.hash(&mut h1);
     s.hash(&mut h1);
